@@ -205,6 +205,55 @@ def case_fix(run, i):
                  sample={"options": opts, "info": info, "target_head": tgt.head(3), "reference_head": ref.head(3)} if i % 97 == 0 else None)
 
 
+def _n_seq(tier):
+    return 64 if tier == "quick" else 800
+
+
+def case_sequence(run, i):
+    """One reference object (and one pair of coverage objects) used for several calls, edited in place between them with
+    the library's own idioms.  Every call is judged on the tables as they are at that moment, so anything remembered on
+    the objects from an earlier call shows as a wrong subtraction, a bin that should have been dropped, or a stale covariate."""
+    import cnvlib.fix as FX
+    rng = run.rng("sequence", i)
+    tgt, anti, ref, info = gen_case(rng, big=False)
+    T, A, R = _cna(tgt), _cna(anti), _cna(ref, "ref")
+    run.begin_case("sequence", i, cls="sequence:" + ("flat" if info["flat"] else "pooled"), info=info)
+    step = [0]
+
+    def call():
+        opts = dict(do_gc=bool(rng.integers(0, 2)), do_edge=bool(rng.integers(0, 2)), do_rmask=bool(rng.integers(0, 2)))
+        run.case["options"] = opts
+        run._tls.fix_meta = {"seed": int(rng.integers(0, 2 ** 31)), "permute": ["reference"] if step[0] % 2 else [], "scale": 3.0}
+        try:
+            FX.do_fix(T, A, R, None, opts["do_gc"], opts["do_edge"], opts["do_rmask"])
+        except Exception:
+            pass
+        run._tls.fix_meta = None
+        step[0] += 1
+
+    call()
+    with run.monitor_scope():
+        first = R.chromosome.iloc[0]
+        R[R.chromosome == first, "log2"] += 1.0                    # re-baselining one chromosome, as shift_xx does
+    run.extra["sequence:reference-log2-edited-in-place"] += 1
+    call()
+    with run.monitor_scope():
+        pick = rng.random(len(R)) < 0.1
+        if "spread" in R and pick.any():
+            R[pick, "spread"] = 1.5                                 # black-listing bins: they fail the reference filters now
+            run.extra["sequence:reference-bins-blacklisted-in-place"] += 1
+    call()
+    with run.monitor_scope():
+        if "gc" in R:
+            R["gc"] = np.asarray(R["gc"])[::-1].copy()              # another GC track of the same length
+            run.extra["sequence:reference-gc-replaced-in-place"] += 1
+        T["log2"] = np.asarray(T["log2"]) + 0.25
+        if "depth" in T:
+            T["depth"] = np.asarray(T["depth"]) * 2 ** 0.25
+    call()
+    run.end_case(fp=rt.fingerprint([tgt, anti, ref], 12), nontrivial=len(tgt) + len(anti) >= 2)
+
+
 def _n_cli(tier):
     return 16 if tier == "quick" else 96
 
@@ -271,10 +320,10 @@ def case_cli(run, i):
     run.end_case(fp=rt.fingerprint([tgt, ref, flags], 12), nontrivial=True)
 
 
-WORKLOADS = {"fix": (_n, case_fix), "cli": (_n_cli, case_cli)}
+WORKLOADS = {"fix": (_n, case_fix), "sequence": (_n_seq, case_sequence), "cli": (_n_cli, case_cli)}
 _Q = {"fix.do_fix|held": 150, "fix.match_ref_to_sample|held": 250, "fix.center_by_window|held": 150, "fix.get_edge_bias|held": 60,
       "fix.do_fix[invariance]|held": 350, "class:perm:target": 100, "class:perm:antitarget": 60, "class:perm:reference": 100, "class:scale": 25,
-      "class:refusal:missing": 4, "class:refusal:duplicate": 4, "cli.fix[file]|held": 8, "cli.fix[plumbing]|held": 8}
+      "extra:sequence:reference-log2-edited-in-place": 30, "class:refusal:missing": 4, "class:refusal:duplicate": 4, "cli.fix[file]|held": 8, "cli.fix[plumbing]|held": 8}
 QUOTA_WAIVERS = {
     "monitor-unavailable:fix.center_by_window": {"waive": ["fix.center_by_window|held"], "require": {"fix.do_fix|held": 150, "fix.do_fix[invariance]|held": 350}},
     "monitor-unavailable:fix.match_ref_to_sample": {"waive": ["fix.match_ref_to_sample|held"], "require": {"fix.do_fix|held": 150}},
